@@ -425,3 +425,23 @@ func init() {
 		return fmt.Sprintf("00000000-0000-4000-8000-%012d", i.ctx.uuidSeq)
 	})
 }
+
+// ---- go.uber.org/multierr: the combined message is the members' messages joined by "; " (its single-line format);
+// built at the interpreter level so that modelled strings inside error texts are not treated as inspected ----
+func init() {
+	registerIntrinsic("(*go.uber.org/multierr.multiError).Error", func(i *interpreter, fr *frame, fn *ssa.Function, a []value) value {
+		p, _ := a[0].(*value)
+		if p == nil {
+			return ""
+		}
+		st := (*p).(structure)
+		errs, _ := st[len(st)-1].([]value)
+		var msgs []string
+		for _, e := range errs {
+			if it, ok := e.(iface); ok {
+				msgs = append(msgs, i.errString(it))
+			}
+		}
+		return strings.Join(msgs, "; ")
+	})
+}
